@@ -35,6 +35,7 @@ Definition expand (body pc : nat) (i : instr) : list micro :=
   | IDropRx h => [MDropRx h]
   | ICellRead u => [MCellRead u]
   | ICellWrite u => [MCellWrite u (N.of_nat (body * 100 + pc + 1))]
+  | ICellNested u k => [MCellNested u k]
   | IYield => [MYield; MLog RUnit]
   | IAwait a v o => [MBranch a ALoad BNever; MLoadPost a o (Some v)]
   | IUnsyncLoad a => [MUnsyncLoad a]
